@@ -111,3 +111,87 @@ class Pop3Session(Harness):
         if left != want_left:
             return {"observed": left, "clause": f"after the session the INBOX holds UIDs {want_left}"}
         return None
+
+
+class Pop3Relay(Harness):
+    """C20: what the user process answers to RETR reaches the POP3 client unmodified -- real POP3SubprocessInterface.get_and_connect_subprocess /
+    msgs_to_client against a stand-in user process on a loopback socket, with lines from 1 kB to 1 MB."""
+
+    scope = "one RETR reply whose message has a line of 1000 / 60000 / 70000 / 200000 / 1000000 octets, followed by another reply"
+    exhaustive = False
+
+    def inputs(self, tier, seed):
+        for n in (1000, 60_000, 70_000, 200_000, 1_000_000):
+            yield {"line_len": n}
+
+    def check(self, inp):
+        import asyncio
+        import logging
+        from unittest.mock import AsyncMock, MagicMock
+
+        import asimap.pop3_server as ps
+
+        logging.disable(logging.CRITICAL)
+        body = b"Subject: x\r\n\r\n" + b"Q" * inp["line_len"] + b"\r\nend\r\n"
+        response = b"+OK %d octets\r\n" % len(body) + body + b".\r\n" + b"+OK bye\r\n"
+
+        async def go():
+            async def fake(reader, writer):
+                try:
+                    for _ in range(2):
+                        hdr = await reader.readuntil(b"\n")
+                        await reader.readexactly(int(hdr.strip()[1:-1]))
+                    writer.write(response)
+                    await writer.drain()
+                    await reader.read()
+                except Exception:  # noqa: BLE001
+                    pass
+                finally:
+                    writer.close()
+
+            srv = await asyncio.start_server(fake, "127.0.0.1", 0)
+            port = srv.sockets[0].getsockname()[1]
+            subp = MagicMock()
+            subp.is_alive = True
+            subp.port = port
+            subp.has_port = asyncio.Event()
+            subp.has_port.set()
+            saved = dict(ps.USER_IMAP_SUBPROCESSES)
+            ps.USER_IMAP_SUBPROCESSES.clear()
+            ps.USER_IMAP_SUBPROCESSES["demo"] = subp
+            out = bytearray()
+            cw = MagicMock(spec=asyncio.StreamWriter)
+            cw.write = MagicMock(side_effect=out.extend)
+            cw.drain = AsyncMock()
+            cw.get_extra_info = MagicMock(return_value=("127.0.0.1", 1))
+            client = ps.POP3Client(MagicMock(), "t:1", "127.0.0.1", 1, asyncio.StreamReader(), cw)
+            intf = getattr(client, "subprocess_intf", None) or ps.POP3SubprocessInterface(client)
+            user = MagicMock()
+            user.username = "demo"
+            try:
+                await intf.get_and_connect_subprocess(user)
+                intf.state = "transaction"
+                intf.writer.write(b"{6}\n")
+                intf.writer.write(b"RETR 1")
+                await intf.writer.drain()
+                for _ in range(500):
+                    await asyncio.sleep(0.01)
+                    if len(out) >= len(response) or intf.wait_task is None or intf.wait_task.done():
+                        break
+                if bytes(out) != response:
+                    return f"relayed {len(out)} of {len(response)} octets; relay task ended: {intf.wait_task is None or intf.wait_task.done()}"
+                return None
+            finally:
+                t = intf.wait_task
+                if t is not None and not t.done():
+                    t.cancel()
+                    try:
+                        await t
+                    except (asyncio.CancelledError, Exception):
+                        pass
+                srv.close()
+                ps.USER_IMAP_SUBPROCESSES.clear()
+                ps.USER_IMAP_SUBPROCESSES.update(saved)
+
+        err = asyncio.run(asyncio.wait_for(go(), 60))
+        return {"observed": err, "clause": "the size announced by RETR equals the octets RETR delivers; the reply arrives complete and terminated"} if err else None
